@@ -494,7 +494,9 @@ func c08Programs(thorough bool) []c08Prog {
 				}
 				for _, cp := range compactors {
 					ps = append(ps, c08Prog{Name: "reader||compactor", Initial: init, Threads: [][]c08Op{rd, cp}})
-					if ri == 0 || thorough {
+					// batches are added in increasing id order (a single goroutine adds in production), so a second
+					// adding thread is only combined with compactors that do not add themselves
+					if (ri == 0 || thorough) && cp[len(cp)-1].Kind == "del" {
 						ps = append(ps, c08Prog{Name: "reader||compactor||adder", Initial: init, Threads: [][]c08Op{rd, cp, adders[0]}})
 					}
 					if ri == 0 && len(cp) <= 2 && cp[len(cp)-1].Kind == "del" {
